@@ -268,8 +268,14 @@ def one_call(ctx, kind, helper, nsobj, reg, hparams, required, subset, form,
         # payloads: whatever it is, the same object reaches the method)
         return [('table', n), ['a', 'b', n], {'x', n}, {'k': n}][j % 4]
     for j, p in enumerate(required):
-        given[p.name] = container(n + j) if valkind == 'container' else \
-            Sentinel('%s-%d' % (p.name, n))
+        if valkind == 'container':
+            given[p.name] = container(n + j)
+        elif valkind == 'falsy':
+            # (room 0, an empty event name, an empty payload: falsy values
+            # are values)
+            given[p.name] = FALSY[(n + j + 1) % len(FALSY)]
+        else:
+            given[p.name] = Sentinel('%s-%d' % (p.name, n))
     for i, p in enumerate(subset):
         if valkind == 'container' and p.name != 'namespace':
             given[p.name] = container(n + i + 1)
